@@ -322,6 +322,10 @@ func mapReduceWithPanicChan[T, U, V any](source <-chan T, panicChan *onceChan, m
 			err = e
 		} else if ok {
 			val = v
+		} else if options.ctx.Err() != nil {
+			// the guarded writer drops the reducer's output once the context is done,
+			// it's the context that ended the call, not a reducer without output.
+			err = context.DeadlineExceeded
 		} else {
 			err = ErrReduceNoOutput
 		}
